@@ -33,7 +33,9 @@ CONSTANTS
   Kinds,         \* set of corruption kinds enabled
   CheckFirstHeader,   \* TRUE: the shape walk also compares the first header of a file (repaired code)
   SortOffsets,        \* TRUE (the code) | FALSE (mutant: header-order walk)
-  EOFRule             \* TRUE (the code) | FALSE (mutant: no end-of-file check)
+  EOFRule,            \* TRUE (the code) | FALSE (mutant: no end-of-file check)
+  ExactNext           \* TRUE (the code: the bytes found where a FAB ends are compared with the next header) |
+                      \* FALSE (mutant: only positions are compared -- the end of a FAB against the next recorded offset)
 
 Rng(s) == {s[i] : i \in DOMAIN s}
 PermsOf(S) == {s \in [1..Cardinality(S) -> S] : Rng(s) = S}
@@ -184,7 +186,8 @@ Walk(L, u, bs, i, pos, eofRule) ==
        IF i = Len(bs)
        THEN IF eofRule /\ nxt # Len(u) THEN "error" ELSE "ok"
        ELSE LET hn == UnitAt(u, nxt)
-                ok == hn.k = "H" /\ hn.canon /\ hn.idx = L.boxlines[bs[i + 1]].idx /\ hn.nc = NF
+                ok == IF ExactNext THEN hn.k = "H" /\ hn.canon /\ hn.idx = L.boxlines[bs[i + 1]].idx /\ hn.nc = NF
+                      ELSE L.fodlines[bs[i + 1]].off = nxt
             IN IF ~ok THEN "error" ELSE Walk(L, u, bs, i + 1, nxt, eofRule)
 
 ImplShapeFileP(L, f, checkFirst, sortOffsets, eofRule) ==
